@@ -51,7 +51,13 @@ def make_inds(rng, absvecs, vectors=None):
     inds = []
     for k, (v, c) in enumerate(zip(absvecs, costs)):
         vec = vectors[k] if vectors else [float(k), 0.5]
-        ind = Individual(list(vec))
+        if rng.random() < 0.25:
+            # a relocated design: the object was created (and hashed, e.g. as a member of an earlier set) somewhere else, then moved here
+            ind = Individual([float(rng.randint(50, 60)), -0.5])
+            hash(ind)
+            ind.vector = list(vec)
+        else:
+            ind = Individual(list(vec))
         ind.costs_signed = list(c) + [absx.concrete_marker(rng, v["m"], mstyle)]
         ind.costs = list(c)
         inds.append(ind)
